@@ -764,8 +764,18 @@ def run_scrape(case, part):
 # ----------------------------------------------------------------------------------------------- crawl
 def crawl_case(rng):
     ctype, body = rng.choice(DOCS[:2])
-    hostile = rng.choice(['mutated-response', 'mutated-body', 'garbage', 'hostile-links'])
-    if hostile == 'mutated-response':
+    hostile = rng.choice(['mutated-response', 'mutated-body', 'garbage', 'hostile-links', 'hostile-fields', 'hostile-fields'])
+    if hostile == 'hostile-fields':
+        # a well-framed response whose header fields are what the file writer, the timestamp / continue logic and the
+        # naming options compute with
+        b = body
+        fields = [b'Content-Type: ' + ctype, b'Content-Length: ' + str(len(b)).encode()]
+        for _ in range(rng.choice([1, 1, 2, 3])):
+            fields.append(rng.choice(HOSTILE_FIELDS))
+        rng.shuffle(fields)
+        status = rng.choice([b'200 OK', b'200 OK', b'206 Partial Content', b'304 Not Modified', b'416 Range Not Satisfiable', b'203 X'])
+        raw = b'HTTP/1.1 ' + status + b'\r\n' + b'\r\n'.join(fields) + b'\r\n\r\n' + (b'' if status.startswith(b'304') else b)
+    elif hostile == 'mutated-response':
         r = httpgen.gen_response(rng, allow=['length', 'chunked', 'close', 'te+cl'])
         raw = mutate(rng, r['wire'])
     elif hostile == 'mutated-body':
@@ -778,9 +788,33 @@ def crawl_case(rng):
                  b'/' + b'x' * 3000, b'/a/../../..', b'http://\xe2\x98\x83.test/', b'/q?' + b'a=b&' * 500, b'mailto:x', b'/con.', b'/nul.txt ']
         b = b'<html><body>' + b''.join(b'<a href="' + l + b'">x</a>' for l in rng.sample(links, rng.randrange(1, 6))) + b'</body></html>'
         raw = b'HTTP/1.1 200 OK\r\nContent-Type: text/html\r\nContent-Length: ' + str(len(b)).encode() + b'\r\n\r\n' + b
-    return {'entry': 'crawl', 'raw': raw, 'hostile': hostile, 'windows_names': rng.random() < 0.3, 'warc': rng.random() < 0.3,
+    options = [o for o in ['--timestamping', '--continue', '--save-headers', '--content-disposition', '--adjust-extension',
+                           '--trust-server-names', '--no-use-server-timestamps', '--page-requisites', '--no-clobber']
+               if rng.random() < 0.25]
+    if '--timestamping' in options and '--no-clobber' in options:
+        options.remove('--no-clobber')        # (the option parser refuses the pair)
+    warc = rng.random() < 0.3
+    if warc:
+        # (the option parser refuses WARC output together with these)
+        options = [o for o in options if o not in ('--timestamping', '--continue', '--no-clobber')]
+    return {'entry': 'crawl', 'raw': raw, 'hostile': hostile, 'windows_names': rng.random() < 0.3, 'warc': warc,
+            'options': options, 'second_run': rng.random() < 0.5,
+            'progress': rng.choice(['quiet', 'quiet', 'bar', 'dot']),
             # post-processing of what the server sent: link conversion reads every saved file again after the downloads
             'convert_links': rng.random() < 0.3}
+
+
+HOSTILE_FIELDS = [
+    b'Last-Modified: garbage', b'Last-Modified: ', b'Last-Modified: Mon, 31 Feb 2020 25:61:61 GMT', b'Last-Modified: Thu, 01 Jan 99999 00:00:00 GMT',
+    b'Last-Modified: Thu, 01 Jan 1900 00:00:00 GMT', b'Last-Modified: -1', b'Last-Modified: Thu, 01 Jan 1970 00:00:00 +9999',
+    b'Last-Modified: \xff\xfe', b'Last-Modified: Sat, 29 Feb 2021 10:00:00 GMT', b'Last-Modified: 0', b'Last-Modified: Fri, 13 Dec 1901 20:45:51 GMT',
+    b'Content-Disposition: attachment; filename="../../x"', b'Content-Disposition: attachment; filename=', b'Content-Disposition: attachment; filename="\x00"',
+    b'Content-Disposition: attachment; filename*=UTF-8\'\'%e2%82', b'Content-Disposition: ;;;', b'Content-Disposition: attachment; filename="' + b'n' * 400 + b'"',
+    b'Content-Range: bytes 5-1/3', b'Content-Range: bytes */0', b'Content-Range: garbage', b'Content-Range: bytes 0-0/0', b'Content-Range: bytes 99999999999999999999-/1',
+    b'Content-Type: text/html; charset=\xff', b'Content-Type: ', b'Content-Type: text/html; charset="', b'Content-Type: ' + b'a/b;' * 300,
+    b'Content-Encoding: gzip', b'Content-Encoding: \x00', b'Accept-Ranges: none', b'ETag: "', b'Date: garbage', b'Expires: -1', b'Refresh: 0; url=http://[bad',
+    b'Link: <http://[bad>; rel="next"', b'Location: http://[bad', b'Content-Location: \xff', b'Content-MD5: ???', b'Age: 999999999999999999999',
+]
 
 
 def run_crawl_case(case, part):
@@ -799,23 +833,37 @@ def run_crawl_case(case, part):
     addrs, port = servers.allocate_addresses(1)
     srv = servers.Server(handler, addrs, port).start()
     tmp = tempfile.mkdtemp(prefix='vc09')
+    import logging
+    logging.disable(logging.NOTSET)       # (the crash classifier reads the application's own log)
     try:
         db = os.path.join(tmp, 'crawl.db')
-        argv = ['http://a.test/', '-r', '--level', '3', '--no-robots', '--database', db, '-P', tmp, '--quiet', '--waitretry', '0',
-                '--tries', '3', '--timeout', '5']
+        argv = ['http://a.test/', '-r', '--level', '3', '--no-robots', '--database', db, '-P', tmp, '--waitretry', '0',
+                '--tries', '3', '--timeout', '5'] + list(case.get('options') or [])
+        progress = case.get('progress', 'quiet')
+        argv += ['--quiet'] if progress == 'quiet' else ['--progress', progress]
         if case['windows_names']:
             argv += ['--restrict-file-names', 'windows']
         if case['warc']:
             argv += ['--warc-file', os.path.join(tmp, 'w'), '--warc-tempdir', tmp]
         if case.get('convert_links'):
             argv += ['--convert-links']
-        res = crawl.run_app(argv, {'a.test': addrs[0]})
+        res = crawl.run_app(argv, {'a.test': addrs[0]}, tty=(progress == 'bar'))
+        if case.get('second_run') and not (res['crashed'] or res['exit_status'] in (None, 1)):
+            # the same command again over the files of the first run (what --continue, --timestamping and --no-clobber
+            # are about): conditional / range requests meet the same hostile answer
+            part.count('crawl_second_runs')
+            os.remove(db)
+            res = crawl.run_app(argv, {'a.test': addrs[0]}, tty=(progress == 'bar'))
         rows = crawl.read_table(db) if os.path.exists(db) else []
         log = srv.log.snapshot()
     finally:
+        logging.disable(logging.CRITICAL)
         srv.stop()
         shutil.rmtree(tmp, ignore_errors=True)
     replay = case
+    part.count('crawl_progress_' + progress)
+    for o in case.get('options') or []:
+        part.count('crawl_option_' + o.lstrip('-'))
     if res['crashed'] or res['exit_status'] in (None, 1):
         m = re.search(r'(\w+(?:Error|Exception))[:\s]', res['log'][::-1][::-1].split('Traceback')[-1]) if 'Traceback' in res['log'] else None
         last = re.findall(r'\n(\w+(?:\.\w+)*(?:Error|Exception)):', res['log'])
@@ -824,11 +872,21 @@ def run_crawl_case(case, part):
         part.violation('crawl/{}/{}'.format(last[-1] if last else (res['exception'] or 'exit-1').split(':')[0], where),
                        {'exit': res['exit_status'], 'exception': res['exception'], 'log': res['log'][-900:], 'hostile': case['hostile']}, replay)
         return
+    if res['exit_status'] == 3:
+        # an OSError left the pipeline: the application takes it for a local disk problem and ends the crawl
+        last = re.findall(r'(\w+(?:Error|Exception)): ([^\n]{0,60})', res['log'])
+        part.violation('crawl/ended-by-an-error-taken-for-a-disk-problem/{}'.format(last[-1][0] if last else 'OSError'),
+                       {'exit': 3, 'log': res['log'][-500:], 'hostile': case['hostile'], 'options': case.get('options')}, replay)
+        return
     part.count('crawl_completed')
     rowmap = {r['url']: r for r in rows}
     s = rowmap.get('http://a.test/sentinel.html')
     served = [e for e in log if e['target'] == '/sentinel.html' and e.get('served')]
-    if s and s['status'] == 'done':
+    if case.get('second_run') and '--continue' in (case.get('options') or []):
+        # the second run asks for the rest of files it already has; the harness server ignores Range, so its own pages
+        # (start page, sentinel) fail as per-URL errors too.  Only the crash / unfinished-row verdicts apply.
+        part.count('crawl_second_run_with_continue')
+    elif s and s['status'] == 'done':
         part.count('crawl_sentinel_done')
     elif s and s['status'] in ('skipped', 'error') and not served:
         # every try of the sentinel was spent on a connection that still held surplus bytes of the hostile response
@@ -900,7 +958,7 @@ def main():
         mult = (60 if check.thorough else 2) * check.scale
         nj = check.jobs * (4 if check.thorough else 1)
         plan = {'inject': int(1600 * mult) // nj, 'http': int(4000 * mult) // nj, 'web': int(1600 * mult) // nj, 'ftp': int(2400 * mult) // nj,
-                'robots': int(800 * mult) // nj, 'scrape': int(4000 * mult) // nj, 'crawl': max(1, int(64 * mult) // nj)}
+                'robots': int(800 * mult) // nj, 'scrape': int(4000 * mult) // nj, 'crawl': max(1, int(192 * mult) // nj)}
         n_battery = (len(listing_battery()) + 5) // 6
         per_job = min(plan['ftp'], (n_battery + nj - 1) // nj)
         jobs = [{'seed': check.seed * 1000003 + i, 'plan': plan, 'battery_per_job': per_job, 'battery_offset': i * per_job}
